@@ -21,3 +21,13 @@ namespace rkcommon {
     template LinearSpace2<vec_t<double, 2>> LinearSpace2<vec_t<double, 2>>::orthogonal() const;
   }  // namespace math
 }  // namespace rkcommon
+
+namespace rkcommon {
+  namespace math {
+    // frame(): orthonormal right-handed frame around a unit normal (rule R-C06-frame)
+    template LinearSpace3<vec_t<float, 3>> frame(const vec_t<float, 3> &);
+    template LinearSpace3<vec_t<float, 3>> frame(const vec_t<float, 3> &, const vec_t<float, 3> &);
+    template LinearSpace3<vec_t<double, 3>> frame(const vec_t<double, 3> &);
+    template LinearSpace3<vec_t<float, 3, true>> frame(const vec_t<float, 3, true> &);
+  }  // namespace math
+}  // namespace rkcommon
